@@ -370,13 +370,14 @@ func (vc *VC) applyContract(fr *Frame, st *State, c *Contract, call *ssa.CallCom
 		results = append(results, v)
 	}
 	post := vc.contractEnv(c, args, results, st, pre)
+	// ghost code runs at the callee's return, before its postconditions are evaluated (as in its own VC)
+	vc.applyGassigns(c, post, st, true)
 	for _, cl := range vc.clauses(c) {
 		if cl.Raw.Kind != "ensures" {
 			continue
 		}
 		vc.assume(st.cond, vc.specBool(post, cl.Expr))
 	}
-	vc.applyGassigns(c, post, st, true)
 	return tupleOf(rt, results)
 }
 
